@@ -692,7 +692,13 @@ def _strip(interp, s, chars, left, right):
     st = interp.st
     t = _s(s)
     if chars is None:
-        raise Unsupported('strip() of Unicode white space (bounded stand-in only)')
+        # Unicode white space: the result is an uninterpreted function of s (a part of s: not longer; the
+        # empty string stays empty).  Enough where the result is only passed on.
+        kind0 = ('l' if left else '') + ('r' if right else '')
+        f0 = z3.Function('str.%sstrip_ws' % {'lr': '', 'l': 'l', 'r': 'r'}[kind0], z3.StringSort(), z3.StringSort())
+        r0 = f0(t)
+        st.axiom(z3.Length(r0) <= z3.Length(t))
+        return wrap(r0)
     if isinstance(chars, Sym) or not chars:
         raise Unsupported('strip with symbolic character set')
     chars = ''.join(sorted(set(chars)))      # (the set of characters is what matters)
